@@ -766,4 +766,4 @@ def main(chk: Check) -> None:
         chk.case("alloc_hist", {"data": 8, "init": "peer", "prefill": {"n": 4092, "len": 1, "stride": 2}, "ops": [["a", 1], ["a", 1], ["a", 1], ["f", 0], ["a", 1], ["a", 1]]}, run_alloc_case)
         chk.explore("alloc_hist", alloc_cases, run_alloc_case, quick=2400, thorough=30000)
     if on("write_hist"):
-        chk.explore("write_hist", write_cases, run_write_case, quick=800, thorough=8000)
+        chk.explore("write_hist", write_cases, run_write_case, quick=1600, thorough=12000)
